@@ -147,6 +147,7 @@ def run_case(case: Dict[str, Any]) -> Dict[str, Any]:
         return {"violations": [exception_violation(r["unit_exc"], ident)], "outcome": "raises"}
     cs: Dict[str, List[float]] = {}
     nonzero = False
+    illcond = 0
     for i, d in enumerate(r["draws"]):
         if not d.get("shape_ok", False):
             continue  # C01's business
@@ -161,6 +162,9 @@ def run_case(case: Dict[str, Any]) -> Dict[str, Any]:
                 if gr["zero"]:
                     if gr["res"] > 1e-300 and gr["c"] is None and gr["res"] != 0.0:
                         viol.append({"key": ident + f"|grad_nonzero_where_reference_zero|{name}", "msg": where})
+                    continue
+                if gr.get("noise", 0.0) > tol_i / 4:
+                    illcond += 1  # the low-precision reference gradient is itself rounding noise here
                     continue
                 nonzero = True
                 if not gr.get("dtype_ok", True):
